@@ -5,7 +5,7 @@ HERE = os.path.dirname(os.path.dirname(os.path.abspath(__file__)))
 PY = '/venv/bin/python'
 
 CHECKS = {
- 'C01': ('A', 'exploration', '5', 'seeded simulated histories on the real library; per-substance ledger over all operands before/after every successful transfer (real objects alone) + locality of wells not addressed', 'deterministic simulation: seeded operation histories with stale-version reuse, conservation ledger invariant after every event'),
+ 'C01': ('A', 'exploration', '5', 'seeded simulated histories on the real library; per-substance ledger over all operands before/after every successful transfer (real objects alone) + locality of wells not addressed; one run in seven is a recipe program of transfers only: totals over all declared objects before vs after bake, wells no step addresses unchanged', 'deterministic simulation: seeded operation histories with stale-version reuse, conservation ledger invariant after every event'),
  'C02': ('A', 'exploration', '5', 'every successful transfer of every run is compared, per well and per substance, with the exact-rational model step taken from the abstraction of the real pre-state (uniform fraction, size in the unit of q, paired destination gain, n*q for broadcasts)', 'deterministic simulation: seeded histories and long transfer chains checked step by step against an exact reference model'),
  'C03': ('A', 'exploration', '5', 'requests are aimed at both sides of every feasibility boundary the model computes from the current state (source content in each unit, free capacity of each destination well, current quantity, current concentration); decision table must-accept / must-refuse(ValueError) / do-not-care band; impossible-state invariant on every returned object', 'deterministic simulation: boundary-biased infeasible requests as the fault sequence, model-decided accept/refuse oracle'),
  'C04': ('C04', 'fault_enumeration', '5', 'complete enumeration of fault instants (injected KeyboardInterrupt / MemoryError at every traced line event of pyplate/*.py, MemoryError from every deepcopy call) for a fixed corpus of 47 operations covering every op kind and pairing form incl. naturally failing part-way ones and operations that have nothing to do, plus seeded histories with faults at seeded instants; after every event and every fault the value fingerprint of every live object, argument and slice, and the module config, must be unchanged, and the fault-free retry must equal the dry run', 'deterministic simulation with fault injection: sys.settrace line-level exception injection and failing-deepcopy seam, enumerated over all instants for a corpus and sampled along seeded histories; structural fingerprints of all live objects as the invariant'),
@@ -39,7 +39,7 @@ def main():
             'thorough_cmd': f'{PY} check.py {pid} --tier thorough',
             'evidence_file': f'evidence/{pid}.json',
             'replay_cmd_template': f'{PY} check.py {pid} --replay {{path}}',
-            'engine': {'C03': 'A+B', 'C07': 'A+B', 'C17': 'A+B', 'C19': 'A+B'}.get(pid, eng),
+            'engine': {'C01': 'A+B', 'C03': 'A+B', 'C07': 'A+B', 'C17': 'A+B', 'C19': 'A+B'}.get(pid, eng),
             'level_claimed': {'category': level, 'text': text, 'design_ref': f'DESIGN.md section {ref} ({pid})'},
             'level_note': 'seeded sampling of histories, not proof; trusted base: the exact reference model (sim/model.py, written from the documentation), the tolerances of DESIGN.md section 3, CPython/numpy; nothing is claimed outside the workload bounds stated there',
             'technique': tech,
@@ -57,7 +57,7 @@ def main():
         'engines': [
             {'name': 'A', 'path': 'sim/engine_a.py', 'serves_properties': sorted(p for p, c in CHECKS.items() if c[0] == 'A'),
              'kind_free_text': 'bench: seeded histories of direct-API operations on real objects, mirrored on an exact model'},
-            {'name': 'B', 'path': 'sim/engine_b.py', 'serves_properties': ['C08', 'C09', 'C15', 'C16', 'C03', 'C07', 'C17', 'C19'],
+            {'name': 'B', 'path': 'sim/engine_b.py', 'serves_properties': ['C08', 'C09', 'C15', 'C16', 'C01', 'C03', 'C07', 'C17', 'C19'],
              'kind_free_text': 'recipe programs: seeded Recipe API call histories beside an eager reference, a per-step ledger and a life-cycle reference machine'},
             {'name': 'C', 'path': 'sim/engine_c.py', 'serves_properties': ['C18'],
              'kind_free_text': 'configuration replicas: the same seeded script on several copies of the library loaded under different pyplate.yaml files'},
